@@ -528,6 +528,7 @@ type T struct {
 	mu       sync.RWMutex
 	failed   stopTest
 	skipping atomic.Bool  // (*T).skip was called (as opposed to a generator running out of data)
+	noData   *invalidData // a generator ran out of data in a cleanup function (T of a Custom generator function)
 	skipped  *invalidData // skip requested by a cleanup function
 	parent   *T           // set for T passed to Custom generator function
 }
@@ -691,10 +692,19 @@ func (t *T) runCleanup(cleanup func()) {
 	defer func() {
 		if r := recover(); r != nil {
 			skip, ok := r.(invalidData)
-			if !ok || (t.parent != nil && !t.skipping.Load()) {
-				// a generator which ran out of data inside a cleanup function of a Custom generator function
-				// rejects the attempt (its groups are left unfinished), it is not a skip request
+			if !ok {
 				panic(r)
+			}
+			if t.parent != nil && !t.skipping.Load() {
+				// a generator which ran out of data inside a cleanup function of a Custom generator function
+				// rejects the attempt (see customGen.maybeValue), it is not a skip request; like a skip
+				// it must not replace a failure which is already in flight
+				t.mu.Lock()
+				if t.noData == nil {
+					t.noData = &skip
+				}
+				t.mu.Unlock()
+				return
 			}
 
 			root := t
